@@ -49,7 +49,8 @@ def main():
             "source_commits": HOOK_COMMITS,
             "add_only": True,
         },
-        "engines": ENGINES,
+        "engines": [dict(e, serves_properties=[p for p in e["serves_properties"] if p in claimed]) for e in ENGINES
+                    if any(p in claimed for p in e["serves_properties"])],
         "checks": checks,
         "not_applicable": na,
         "notes": "Technique family: runtime monitoring and sanitizers. See DESIGN.md; known_findings.json lists genuine defects (open and fixed).",
@@ -62,6 +63,65 @@ ENGINES = [
  {"name": "pico_mon", "path": "harness/pico_mon", "serves_properties": ["C01", "C02", "C03", "C04"],
   "kind_free_text": "Rust binary linking the real pico: history generator, executor, event log at pico's client boundary, online/offline monitors; runs natively, under Miri, ASan, valgrind"},
 ]
+
+E2 = "intern_mon"; E3 = "e3_cli_node"; EU = "util_tools"; EL = "lsp_tools"; ES = "swc_tools"; EG = "gql_tools"; EF = "iso_tools"
+CHECKS.update({
+ "C05": dict(engine=E2, level="exploration", technique="runtime monitoring: concurrent seeded histories on the real intern tables with injected delays at hook sites, offline checkers (bijection, per-value linearizability of get_interned, density, Ord, serde round trip) + Miri many-seeds (quick) + TSan/ASan (thorough)",
+   text="Held on N multi-threaded histories (evidence: histories, ops, contended try_write, distinct hook-order interleavings, Miri seeds completed): ids and values stayed in bijection, lookups returned the interned value, indices dense and stable, ordering and serialisation faithful; no Miri/TSan/ASan report. Schedules are sampled (OS scheduler x delay plans x Miri seeds), not enumerated.",
+   note="Trusted: offline checkers in harness/intern_mon/src/c05.rs; hook H2 only adds delay points between critical sections.", ref="3/C05"),
+ "C06": dict(engine=E2, level="exploration", technique="runtime monitoring: concurrent add/get/len histories on the real AtomicArena with injected delays at bucket-boundary races, unique elements + drop counters, offline checker + Miri many-seeds (quick) + TSan/ASan/memory_consistency_assertions (thorough)",
+   text="Held on N histories (evidence: bucket-allocation races observed, interleaving fingerprints, Miri seeds): no Ref handed out twice, every get read the element added under that Ref, len monotone and exact after join, each element dropped exactly once; no Miri/TSan/ASan report. Sampled schedules.",
+   note="Trusted: checker in harness/intern_mon/src/c06.rs; elements are unique so reads identify writes.", ref="3/C06"),
+ "C07": dict(engine=EU, level="exploration", technique="runtime monitoring: generated/mutated/extreme inputs into the real parse_iso_literal in child processes (signals, panics, CPU clock) with a span/semantic-token well-formedness monitor; libFuzzer+ASan leg in thorough",
+   text="Held on N inputs (grammar-directed, token- and byte-level mutations, extremes): no panic/abort, bounded CPU per parse, every span in range, ordered and on char boundaries, semantic tokens increasing and disjoint; the deep-nesting stack overflows are listed known findings.",
+   note="Trusted: hand-written AST visitor in harness/util_tools/src/ast.rs covers all span-carrying public fields.", ref="3/C07"),
+ "C09": dict(engine=E3, level="exploration", technique="runtime monitoring: real isograph_cli on generated + checked-in projects; every operation string as node evaluates it is parsed and validated (spec section 5) by the reference GraphQL implementation pylib/gqlref.py",
+   text="Held on N compiled projects / M distinct operations (evidence lists per-rule subject counts): every operation parsed and validated against the project schema, except the listed known finding (same response name under two refinements with different types).",
+   note="Trusted: pylib/gqlref.py (spec transcription, self-tested each run).", ref="3/C09"),
+ "C11": dict(engine=E3, level="exploration", technique="runtime monitoring: tree comparison of each generated operation (parsed by reference parser) with the normalization AST node evaluates from the artifact, incl. concreteType vs schema kind",
+   text="Held on N operations (entrypoints and refetch queries) of generated + checked-in projects: same fields/arguments/inline fragments per level, Linked vs Scalar, concreteType exactly for object types.",
+   note="Trusted: gqlref parser and the project's schema files; dynamic half observed in C10/C12.", ref="3/C11"),
+ "C13": dict(engine=E3, level="exploration", technique="runtime monitoring: every generated file parsed by node 22's TypeScript stripper / JSON.parse and actually imported through an ESM loader; relative import specifiers scanned from the original text must resolve to generated files",
+   text="Held on N compiles over distinct option combinations and hostile text (descriptions, strings, headers): all artifacts parsed, loaded and were import-closed.",
+   note="Trusted: node's TypeScript stripper as syntax oracle (no type checking).", ref="3/C13"),
+ "C21": dict(engine=EL, level="exploration", technique="runtime monitoring: in-process long-lived LspState driven through the real notification/request dispatch (hook H6) vs two fresh servers after every step; serialised answers compared; divergences shrunk",
+   text="Held on N edit/notification histories: diagnostics, semantic tokens, formatting, hover and definition of the long-lived server equalled a fresh server on the effective contents; one listed known finding (open buffer of a file absent on disk).",
+   note="Trusted: the harness's notion of effective contents (disk overridden by open buffers).", ref="3/C21"),
+ "C22": dict(engine=EL, level="exploration", technique="runtime monitoring: real formatting request on generated documents; monitors: re-parse, span-erased AST equality, idempotence, independent LSP edit applier",
+   text="Held on N accepted literals in generated documents with non-ASCII surroundings.",
+   note="Trusted: span-erasing AST comparison in harness/lsp_tools/src/ast.rs and the edit applier.", ref="3/C22"),
+ "C23": dict(engine=EL, level="exploration", technique="runtime monitoring: semantic tokens / diagnostics / formatting / hover / definition ranges decoded with an independent byte<->UTF-16 converter and compared with the parser's byte spans",
+   text="Held on N documents with 2-4-byte characters, CRLF and multi-line tokens: every range addressed exactly the text it describes.",
+   note="Trusted: reference converter in harness/lsp_tools/src/pos.rs.", ref="3/C23"),
+ "C28": dict(engine=ES, level="exploration", technique="runtime monitoring: the real swc plugin pass (rlib) on the same generated source files the real CLI compiled; import specifiers resolved against files on disk; printed module compared with a hand-substituted one",
+   text="Held on N iso calls in generated modules over header whitespace/directive/keyword-prefix variety, both module settings, file depths and artifact_directory settings.",
+   note="Trusted: what the compiler understood is read back from iso.ts and entrypoint.ts files it wrote.", ref="3/C28"),
+ "C29": dict(engine=EG, level="exploration", technique="runtime monitoring: differential testing of the relay parser/printer against construction-known trees and the reference parser gqlref on generated, mutated and edge-case documents",
+   text="Held on N documents except the listed known findings (escape decoding, i64 ints, empty documents, empty extensions, printer drops).",
+   note="Trusted: pylib/gqlref.py and pylib/gqlgen.py (AST-first generator).", ref="3/C29"),
+ "C30": dict(engine=EG, level="exploration", technique="runtime monitoring: differential testing of graphql_schema_parser against construction-known trees, gqlref and (third opinion) the relay parser",
+   text="Held on N schema documents inside the supported subset except the listed known findings.",
+   note="Trusted: pylib/gqlref.py; subset grammar written in pylib/props/c30.py.", ref="3/C30"),
+ "C31": dict(engine=EU, level="exploration", technique="runtime monitoring: real text_with_carats on generated texts with every span (short texts) against an independent row/column/caret-cell model; Miri leg for slicing",
+   text="Held on N (text, span) pairs incl. multi-byte characters, CRLF, outer offsets: no panic, row/column right, one caret per character of the span.",
+   note="Trusted: model in harness/util_tools/src/carats.rs.", ref="3/C31"),
+ "C32": dict(engine=EU, level="exploration", technique="runtime monitoring: derived resolve() at every byte offset of generated literals vs an independent AST walk (pointer identity of nodes and ancestor chains)",
+   text="Held on N literals x every offset: returned node innermost, chain equals the true ancestor chain.",
+   note="Trusted: hand-written walker in harness/util_tools/src/resolve.rs.", ref="3/C32"),
+ "C33": dict(engine=EU, level="exploration", technique="runtime monitoring: real sign_file / is_valid_signature on generated contents and every single-character edit (short contents)",
+   text="Held on N contents and M edits: signed files verify (token once or several times), every edit outside the hex digits invalidates.",
+   note="Trusted: edit enumerator in harness/util_tools/src/signed.rs.", ref="3/C33"),
+})
+ENGINES += [
+ {"name": E2, "path": "harness/intern_mon", "serves_properties": ["C05", "C06"], "kind_free_text": "Rust binary over the real intern crate (hook H2 delay points): seeded multi-threaded histories, per-thread logs, offline checkers; native, Miri many-seeds, TSan, ASan"},
+ {"name": E3, "path": "pylib/e3.py", "serves_properties": ["C08","C09","C10","C11","C12","C13","C14","C15","C16","C17","C24","C25","C26","C27"], "kind_free_text": "project generator (pylib/isogen.py) -> real isograph_cli subprocess -> node 22 probe (node/probe.mjs: TS stripper, ESM loader, real isograph-react runtime) -> Python oracles with reference GraphQL implementation"},
+ {"name": EU, "path": "harness/util_tools", "serves_properties": ["C07","C31","C32","C33"], "kind_free_text": "Rust tool: generators + monitors around parse_iso_literal, resolve, text_with_carats, signedsource; child-process isolation, Miri, libFuzzer"},
+ {"name": EL, "path": "harness/lsp_tools", "serves_properties": ["C21","C22","C23"], "kind_free_text": "Rust tool driving the real language-server state and handlers in-process (hook H6) against fresh servers and independent converters"},
+ {"name": ES, "path": "harness/swc_tools", "serves_properties": ["C28"], "kind_free_text": "Rust tool linking the swc plugin as rlib; parse/transform/print of generated modules"},
+ {"name": EG, "path": "harness/gql_tools", "serves_properties": ["C29","C30"], "kind_free_text": "Rust tool dumping relay graphql-syntax and graphql_schema_parser trees as canonical JSON for comparison with pylib/gqlref.py"},
+ {"name": EF, "path": "harness/iso_tools", "serves_properties": ["C18","C19","C20"], "kind_free_text": "Rust tools over the compiler's public API + hooks H4/H5: fsops (artifact write plan/apply with fault plan), watchsim (incremental vs fresh state)"},
+]
+
 import subprocess
 HOOK_COMMITS = [l.split()[0] for l in subprocess.run(["git", "-C", "/repo", "log", "--format=%h %s"], capture_output=True, text=True).stdout.splitlines() if "verif hook" in l]
 
